@@ -302,7 +302,11 @@ func (g *e3gen) stream() []byte {
 				for a := 0; a < nab; a++ {
 					b = refAppendFrame(b, RFrame{Stream: sid, Msg: mid, Kind: kind ^ 3, Ctl: g.chance(0.5), Data: data})
 				}
-				mid++
+				if g.chance(0.4) {
+					sid++ // abandoned by the NEXT stream, whose packet carries the same message id
+				} else {
+					mid++
+				}
 			case 7: // an unfinished packet raises the floor: the ids that follow it are lower
 				g.desc = append(g.desc, "regress-after-abandon")
 				if g.chance(0.5) {
